@@ -112,6 +112,29 @@ func main() {
 			rewriteFile(p, f, name)
 		}
 	}
+	// SDK packages that checks drive as client code (separate module of the workspace): seeded map order only
+	sdkRoot := filepath.Join(*root, "sdk", "go", "hydraidego")
+	if _, err := os.Stat(filepath.Join(sdkRoot, "go.mod")); err == nil {
+		scfg := &packages.Config{Mode: cfg.Mode, Dir: sdkRoot, Env: append(os.Environ(), "GOWORK=off", "GOFLAGS=-mod=mod")}
+		spkgs, err := packages.Load(scfg, ".", "./hydrex")
+		if err != nil {
+			die("load sdk: %v", err)
+		}
+		onlyRanges = true
+		for _, p := range spkgs {
+			for _, e := range p.Errors {
+				die("sdk scope does not type-check: %s: %v", p.PkgPath, e)
+			}
+			for i, f := range p.Syntax {
+				name := p.CompiledGoFiles[i]
+				if strings.HasSuffix(name, "_test.go") {
+					continue
+				}
+				rewriteFile(p, f, name)
+			}
+		}
+		onlyRanges = false
+	}
 	for _, rel := range strings.Split(*extra, ",") {
 		if rel == "" {
 			continue
@@ -415,8 +438,15 @@ func isPure(e ast.Expr) bool {
 	return false
 }
 
+// onlyRanges restricts rewriteFile to the range-over-map rewrite (used for the SDK packages a check drives:
+// they run as client code, but their map iteration order decides the order of requests and must be seeded too).
+var onlyRanges bool
+
 func rewriteFile(p *packages.Package, f *ast.File, path string) {
-	changed := redirectImports(f)
+	changed := false
+	if !onlyRanges {
+		changed = redirectImports(f)
+	}
 	needSimrt := false
 	id := func(s string) *ast.Ident { return ast.NewIdent(s) }
 	simrtSel := func(name string) ast.Expr {
@@ -427,6 +457,9 @@ func rewriteFile(p *packages.Package, f *ast.File, path string) {
 	astutil.Apply(f, nil, func(c *astutil.Cursor) bool {
 		switch n := c.Node().(type) {
 		case *ast.GoStmt:
+			if onlyRanges {
+				return true
+			}
 			call := n.Call
 			var arg ast.Expr
 			if len(call.Args) == 0 {
@@ -491,6 +524,9 @@ func rewriteFile(p *packages.Package, f *ast.File, path string) {
 			cnt.gos++
 			changed = true
 		case *ast.SelectStmt:
+			if onlyRanges {
+				return true
+			}
 			if repl := rewriteSelect(p.Fset, n, c.Parent()); repl != nil {
 				needSimrt = true
 				// comments that sat inside the original statement have no home in the
